@@ -181,14 +181,25 @@ pub fn classify(text: &str, locale_id: &str) -> Verdict {
         // d.m.y shaped dates (three digit groups separated by dots): which date shapes
         // are "supported" is not fixed by the statement
         let parts: Vec<&str> = text.split('.').collect();
-        if parts.len() == 3 && parts.iter().all(|p| !p.is_empty() && p.chars().all(|c| c.is_ascii_digit())) {
+        if parts.len() == 3
+            && parts.iter().all(|p| {
+                let p = p.strip_prefix('+').unwrap_or(p);
+                !p.is_empty() && p.chars().all(|c| c.is_ascii_digit())
+            })
+        {
             return Verdict::DontCare(None);
         }
     }
-    // things that look like d-m or d-m-y dates: silent
-    if text.chars().filter(|c| *c == '-').count() >= 1 && !text.starts_with('-') && !text.to_lowercase().contains('e') {
+    // things that look like d-m or d-m-y dates (digit groups joined by '-', the engine even
+    // accepts a '+' in front of a group): which date shapes are supported is not fixed
+    if text.contains('-') && !text.starts_with('-') && !text.to_lowercase().contains('e') {
         let parts: Vec<&str> = text.split('-').collect();
-        if parts.len() >= 2 && parts.iter().all(|p| !p.is_empty() && p.chars().all(|c| c.is_ascii_digit())) {
+        if parts.len() >= 2
+            && parts.iter().all(|p| {
+                let p = p.strip_prefix('+').unwrap_or(p);
+                !p.is_empty() && p.chars().all(|c| c.is_ascii_digit())
+            })
+        {
             return Verdict::DontCare(None);
         }
     }
